@@ -321,6 +321,43 @@ def conveyor_lines(tier):
     return out
 
 
+def fleet_dense(tier):
+    """fleets with overlapping trips and batches of several items"""
+    out = []
+    for cap, delay, transit, iat in ((4, 1, 1.5, [0.5, 0.3]), (3, 1, 1, [0.5, 1]), (6, 1, 1.5, [0.3, 0.5])):
+        c = {"nodes": [src("S", n=8, iat=iat), sink("K")],
+             "edges": [edge("fleet", "F", "S", "K", cap=cap, delay=delay, transit=transit)], "until": 14, "family": "fleet_dense",
+             "tag": "fleet_dense(c%d,d%s,t%s)" % (cap, delay, transit)}
+        out.append(c)
+        c2 = {"nodes": [src("S", n=8, iat=iat), mach("M", wc=2, pd=[1, 0.5]), sink("K")],
+              "edges": [edge("fleet", "F", "S", "M", cap=cap, delay=delay, transit=transit), buf("O", "M", "K", cap=2)], "until": 14,
+              "family": "fleet_dense", "tag": "fleet_dense_m(c%d,d%s,t%s)" % (cap, delay, transit)}
+        out.append(c2)
+    return out
+
+
+def nonblocking_fleet(tier):
+    """non-blocking machine with several workers finishing together in front of small fleets / buffers"""
+    out = []
+    for pol in ("ROUND_ROBIN", 0, "FIRST_AVAILABLE", ("call",)):
+        for fcap, wc in ((1, 2), (2, 3)):
+            for ek in ("fleet", "buffer"):
+                nodes = [src("S%d" % i, n=3, iat=[1, 2]) for i in range(wc)] + [mach("M", wc=wc, blocking=False, out_pol=pol, pd=[1, 2])]
+                edges = [buf("I%d" % i, "S%d" % i, "M", cap=1) for i in range(wc)]
+                for j in range(2):
+                    nodes.append(sink("K%d" % j))
+                    if ek == "fleet":
+                        edges.append(edge("fleet", "O%d" % j, "M", "K%d" % j, cap=fcap, delay=3, transit=1))
+                    else:
+                        nodes[-1] = mach("D%d" % j, pd=[4, 3])
+                        nodes.append(sink("K%d" % j))
+                        edges.append(buf("O%d" % j, "M", "D%d" % j, cap=fcap))
+                        edges.append(buf("Z%d" % j, "D%d" % j, "K%d" % j, cap=1))
+                out.append({"nodes": nodes, "edges": edges, "until": 12, "family": "nonblocking_fleet",
+                            "tag": "nb_multi(%s,%s%d,wc%d)" % (_p(pol), ek, fcap, wc)})
+    return out
+
+
 def draining(tier):
     """finite input and a long horizon: every generated item must end up received or counted as discarded"""
     out = []
@@ -338,7 +375,7 @@ def draining(tier):
     return out
 
 
-FAMILIES = {"draining": draining, "splitters": splitters, "lines": core_lines, "congestion": congestion, "diamonds": diamonds, "fans": fans, "combiners": combiners,
+FAMILIES = {"fleet_dense": fleet_dense, "nonblocking_fleet": nonblocking_fleet, "draining": draining, "splitters": splitters, "lines": core_lines, "congestion": congestion, "diamonds": diamonds, "fans": fans, "combiners": combiners,
             "conveyors": conveyor_lines}
 
 
